@@ -148,7 +148,8 @@ class C11(Check):
         props = []
         n_props = src.randint(1, 3)
         for i in range(n_props):
-            name = f"p{i}"
+            # one in four is a private helper cache (un-annotated, underscore-prefixed): a derived value like any other
+            name = f"_p{i}" if src.chance(0.25) else f"p{i}"
             cands = base_names + [p["name"] for p in props]
             if src.chance(0.12):
                 deps = ["*"]
